@@ -3,7 +3,7 @@
 from __future__ import annotations
 
 import math
-from datetime import timedelta
+from datetime import datetime, timedelta
 from types import SimpleNamespace
 
 import numpy as np
@@ -62,7 +62,12 @@ def _comp_cases():
         lambda s, t, e, sec: {"lat": s[0], "lon": s[1], "alt": s[2], "elapsed": e,
                               "start": iso(t.replace(hour=23, minute=58, second=0, microsecond=0) + timedelta(seconds=sec) - timedelta(seconds=e))},
         _sites(), eop_instants(margin_days=5), st.one_of(st.integers(0, 900), st.sampled_from([0, 60, 300])), st.integers(0, 119))
-    return st.one_of(free, free, on_midnight, late)
+    # epochs on the two days of the table that END with a leap second (UT1-UTC of the next table row is one second larger)
+    leap_eve = st.builds(
+        lambda s, day, sec, e: {"lat": s[0], "lon": s[1], "alt": s[2], "elapsed": e,
+                                "start": iso(datetime(*day) + timedelta(seconds=sec) - timedelta(seconds=e))},
+        _sites(), st.sampled_from([(2015, 6, 30), (2016, 12, 31)]), st.integers(120, 86400 - 120), st.one_of(st.integers(60, 3600), st.sampled_from([60, 300, 86400])))
+    return st.one_of(free, free, on_midnight, late, leap_eve)
 
 
 def _expect(case, when, state, rec, what):
@@ -149,6 +154,17 @@ def component(c, rec):
             # (the daily UT1-UTC step reaches ~2 ms = 1 m at the equator: 3 m allowed across 00:00 UTC, 5 cm elsewhere; observed 1.1 m / 0.01 mm)
             if crosses_utc_midnight is not None and abs(chord_ab - chord_bc) > (3e-3 if crosses_utc_midnight else 5e-5):
                 raise Violation("ground_rotation_uniform", f"ground site moves {chord_ab * 1e3:.3f} m in the minute before {when.isoformat()} and {chord_bc * 1e3:.3f} m in the minute after (lat={c['lat']!r}, lon={c['lon']!r})")
+            # the same minute two days later (still inside the table): the Earth turns through the same angle per UTC minute on
+            # every day (the length of day varies by ~1e-8), so the chords agree unless one of the days is given another rate
+            if crosses_utc_midnight is False and when.date() not in LEAP_SECOND_DATES:
+                later = [np.asarray(dyn.propagate(0.0, float(el + 172800 + o), x0), dtype=float) for o in (-60, 0)]
+                if (when + timedelta(seconds=172800 - 60)).date() == (when + timedelta(seconds=172800)).date():
+                    chord_later = float(np.linalg.norm(later[1][:3] - later[0][:3]))
+                    rec.err("chord_vs_two_days_later_km", abs(chord_ab - chord_later))
+                    if (when.year, when.month, when.day) in ((2015, 6, 30), (2016, 12, 31)):
+                        rec.label("day_ending_with_a_leap_second")
+                    if abs(chord_ab - chord_later) > 5e-5:
+                        raise Violation("ground_rotation_rate", f"ground site moves {chord_ab * 1e3:.3f} m in the minute before {when.isoformat()} but {chord_later * 1e3:.3f} m in the same minute two days later (lat={c['lat']!r}, lon={c['lon']!r})")
         # stepping in two legs lands at the same place
         x_mid = dyn.propagate(0.0, float(el // 2), x0)
         x2 = dyn.propagate(float(el // 2), float(el), x_mid)
